@@ -229,14 +229,27 @@ def _alarm(*a):
 
 
 def corpus_files():
+    """(.teal files of the repository) + (TEAL programs embedded as string literals in tests/**/*.py)."""
     fs = sorted(glob.glob(os.path.join(common.REPO, "tests", "**", "*.teal"), recursive=True))
-    return fs
+    out = [(f, None) for f in fs]
+    for py in sorted(glob.glob(os.path.join(common.REPO, "tests", "**", "*.py"), recursive=True)):
+        try:
+            with open(py, encoding="utf-8") as fh:
+                text = fh.read()
+        except OSError:
+            continue
+        for k, m in enumerate(re.finditer(r'"""\s*\n?(#pragma version \d+.*?)"""', text, re.S)):
+            out.append(("%s#%d" % (py, k), m.group(1)))
+    return out
 
 
 def corpus_batch(files, ctr, out):
-    for f in files:
-        with open(f, encoding="utf-8") as fh:
-            src = fh.read()
+    for f, embedded in files:
+        if embedded is not None:
+            src = embedded
+        else:
+            with open(f, encoding="utf-8") as fh:
+                src = fh.read()
         signal.signal(signal.SIGALRM, _alarm)
         signal.alarm(60)
         try:
